@@ -221,8 +221,12 @@ class Schema(ResolverMap):
                         % original_directive
                     )
 
+            busted_cache = busted_cache or (
+                new_directive is not self.directives.get(directive_name)
+            )
+
             if new_directive is None:
-                del self.directives[directive_name]
+                self.directives.pop(directive_name, None)
             else:
                 self.directives[directive_name] = new_directive
 
